@@ -3,6 +3,7 @@ CONSTANTS Vars <- VarsXY
  Kinds <- KindsC16
  LitIdx <- LitsAll
  Imports <- Both
+ Shape = "free"
  Emit = FALSE
 SPECIFICATION Spec
 INVARIANTS HistoryOK FrozenIrrelevant AlgoRefinesPython FoldOnly Fresh WellFormedHeap
